@@ -24,7 +24,7 @@ func init() {
 				"of every fallible step that precedes it in its function, and every such step's error is checked; addRuleList keeps " +
 				"the previous list on each error edge. R4: the index conversion skips invalid entries and keeps converting the rest.",
 			NotCovered: "behaviour of the HTTP client under each fault kind; atomicity of renameio itself (trusted); disk-full and fsync semantics.",
-			Rules: map[string]string{"C13-R1": "download / replace protocol tables", "C13-R2": "who may mutate files",
+			Rules: map[string]string{"C13-R9": "an index key is converted to filter.ID only where the same field is validated by filter.NewID in the package", "C13-R10": "components with RefreshInitial are started through it in package cmd, never through their periodic Refresh", "C13-R1": "download / replace protocol tables", "C13-R2": "who may mutate files",
 				"C13-R3": "commit only after success", "C13-R4": "invalid index entries skipped, not aborting",
 				"C13-R7": "exact HTTP status check; only the size-limited reader that fails at the limit is used on a list's path",
 				"C13-R6": "blocked-service index: any invalid entry rejects the whole update",
@@ -225,6 +225,16 @@ func c13Commit(c *an.Ctx, rule string, fn *ssa.Function, what string, commit ssa
 }
 
 func runC13(c *an.Ctx) {
+	// ---- R10: the storage (and every other component with a RefreshInitial) is started from what is cached
+	if n := sharedInitialRefresh(c, "C13-R10"); n < 4 {
+		c.Und("C13-R10", "start-up refreshes", token.NoPos, "only %d RefreshInitial calls found in package cmd (expected the rule-list storage and the three hash-prefix filters)", n)
+	}
+	// ---- R9: an index entry becomes a list (and a cache-file name) only with a key that passed filter.NewID
+	if n := sharedValidatedConversions(c, "C13-R9", "filter/internal.ID", ".NewID", "filter/filterstorage."); n >= 1 {
+		c.Ok("C13-R9", "unchecked conversions to filter.ID in the storage", token.NoPos, "%d conversions of a field examined", n)
+	} else {
+		c.Und("C13-R9", "unchecked conversions to filter.ID in the storage", token.NoPos, "no conversion found (anchor: indexResp.toInternal)")
+	}
 	// ---- C13-R8: builder wiring of the components this property rests on
 	c.Floor("C13-R8", 25)
 	builderWiring(c, "C13-R8", map[string][]string{
